@@ -1089,6 +1089,20 @@ def bounded(payload):
                     parts["family_pairs"] += 1
                     if len(samples) < 1 and a == "flag" and b == "loop":
                         samples.append(pr)
+    # 1a'. the same temporaries under names that LOOK like pieces of the time names (t, dt, d, >): they are ordinary per-step
+    #      names, clash between the two methods, and have to be renamed like any other
+    k = 0
+    for a in FEATURES:
+        for b in ("flag", "update", "loop"):
+            if b not in FEATURES:
+                continue
+            for nm in ("dt", "t", "d"):
+                k += 1
+                if tier == "quick" and (k + seed) % 3:
+                    continue
+                pr = gen_pair(random.Random("timelike/%d" % k), [a], [b], True, None, "s", False)
+                consider(json.loads(json.dumps(pr).replace('"tmp"', json.dumps(nm))))
+                parts["family_time_like_temporary_pairs"] += 1
     # 1b. a persistent <p> variable both methods read; guarded Raise / FailStep statements (only a guard to rename)
     extra = ["sharedp", "guardraise", "guardfail", "kwcall"]
     k = 0
